@@ -105,7 +105,7 @@ func ext۰reflect۰rtype۰Field(fr *frame, args []value) value {
 func ext۰reflect۰rtype۰In(fr *frame, args []value) value {
 	// Signature: func (t reflect.rtype, i int) int
 	i := args[1].(int)
-	return makeReflectType(rtype{args[0].(rtype).t.(*types.Signature).Params().At(i).Type()})
+	return makeReflectType(rtype{args[0].(rtype).t.Underlying().(*types.Signature).Params().At(i).Type()})
 }
 
 func ext۰reflect۰rtype۰Kind(fr *frame, args []value) value {
@@ -482,6 +482,14 @@ func ext۰reflect۰Value۰Set(fr *frame, args []value) value {
 func ext۰reflect۰valueInterface(fr *frame, args []value) value {
 	// Signature: func (v reflect.Value, safe bool) interface{}
 	v := args[0].(structure)
+	if _, isI := rV2T(v).t.Underlying().(*types.Interface); isI {
+		// a Value of interface kind (from Elem of a pointer to interface):
+		// Interface() returns the dynamic value, not a nested interface
+		if x, ok := rV2V(v).(iface); ok {
+			return x
+		}
+		return iface{}
+	}
 	return iface{rV2T(v).t, rV2V(v)}
 }
 
@@ -577,8 +585,92 @@ func initReflect0(i *interpreter) {
 		"Out":       newMethod(i.reflectPackage, rtypeType, "Out"),
 		"Size":      newMethod(i.reflectPackage, rtypeType, "Size"),
 		"String":    newMethod(i.reflectPackage, rtypeType, "String"),
+
+		"IsVariadic":   newMethod(i.reflectPackage, rtypeType, "IsVariadic"),
+		"Name":         newMethod(i.reflectPackage, rtypeType, "Name"),
+		"PkgPath":      newMethod(i.reflectPackage, rtypeType, "PkgPath"),
+		"Implements":   newMethod(i.reflectPackage, rtypeType, "Implements"),
+		"AssignableTo": newMethod(i.reflectPackage, rtypeType, "AssignableTo"),
 	}
 	i.errorMethods = methodSet{
 		"Error": newMethod(i.reflectPackage, errorType, "Error"),
 	}
+}
+
+func ext۰reflect۰rtype۰IsVariadic(fr *frame, args []value) value {
+	return args[0].(rtype).t.Underlying().(*types.Signature).Variadic()
+}
+
+func ext۰reflect۰rtype۰Name(fr *frame, args []value) value {
+	switch t := args[0].(rtype).t.(type) {
+	case *types.Named:
+		return t.Obj().Name()
+	case *types.Basic:
+		return t.Name()
+	case *types.Alias:
+		return t.Obj().Name()
+	}
+	return ""
+}
+
+func ext۰reflect۰rtype۰PkgPath(fr *frame, args []value) value {
+	if t, ok := args[0].(rtype).t.(*types.Named); ok && t.Obj().Pkg() != nil {
+		return t.Obj().Pkg().Path()
+	}
+	return ""
+}
+
+func ext۰reflect۰rtype۰Implements(fr *frame, args []value) value {
+	u := args[1].(iface).v.(rtype).t
+	it, ok := u.Underlying().(*types.Interface)
+	if !ok {
+		panic(targetPanic{iface{fr.i.runtimeErrorString, "reflect: non-interface type passed to Type.Implements"}})
+	}
+	return types.Implements(args[0].(rtype).t, it)
+}
+
+func ext۰reflect۰rtype۰AssignableTo(fr *frame, args []value) value {
+	return types.AssignableTo(args[0].(rtype).t, args[1].(iface).v.(rtype).t)
+}
+
+func ext۰reflect۰PointerTo(fr *frame, args []value) value {
+	return makeReflectType(rtype{types.NewPointer(args[0].(iface).v.(rtype).t)})
+}
+
+// (reflect.Value).Call: calls the function value with the unwrapped arguments
+// (packing the variadic tail) and wraps the results with their static types.
+func ext۰reflect۰Value۰Call(fr *frame, args []value) value {
+	sig := rV2T(args[0]).t.Underlying().(*types.Signature)
+	fn := rV2V(args[0])
+	in := args[1].([]value)
+	np := sig.Params().Len()
+	var cargs []value
+	for k, a := range in {
+		if sig.Variadic() && k >= np-1 {
+			break
+		}
+		cargs = append(cargs, copyVal(rV2V(a)))
+	}
+	if sig.Variadic() {
+		var tail []value
+		for k := np - 1; k < len(in); k++ {
+			tail = append(tail, copyVal(rV2V(in[k])))
+		}
+		cargs = append(cargs, tail)
+	} else if len(in) != np {
+		panic(targetPanic{iface{fr.i.runtimeErrorString, "reflect: Call with wrong number of input arguments"}})
+	}
+	res := call(fr.i, fr, 0, fn, cargs)
+	nr := sig.Results().Len()
+	out := make([]value, 0, nr)
+	switch nr {
+	case 0:
+	case 1:
+		out = append(out, makeReflectValue(sig.Results().At(0).Type(), res))
+	default:
+		for k, r := range res.(tuple) {
+			out = append(out, makeReflectValue(sig.Results().At(k).Type(), r))
+		}
+	}
+	return out
 }
